@@ -68,7 +68,7 @@ class FaultFile(TraceFile):
         f = sys._getframe(2)
         while f is not None:
             fn = f.f_code.co_filename
-            if "/mutagen/" in fn:
+            if "/mutagen/" in fn and f.f_code.co_name != "_seek_back":      # apev2._seek_back: the site is its caller
                 return "%s:%s" % (fn.split("/mutagen/")[-1], f.f_code.co_name)
             f = f.f_back
         return "?"
